@@ -380,7 +380,9 @@ ConsAwait(p) ==
     /\ LET s == Target[p] IN
        \/ \* the messages signal wins
           /\ SigReady(p)
-          /\ permit' = [permit EXCEPT ![s] = IF sig[p] = "init" /\ sgen[p] = gen[s] THEN FALSE ELSE @]
+          \* a stored permit is tried first, even if notify_waiters was called since the creation
+          \* (checked against the real primitive by bin/check-notify)
+          /\ permit' = [permit EXCEPT ![s] = IF sig[p] = "init" /\ permit[s] THEN FALSE ELSE @]
           /\ sig' = [sig EXCEPT ![p] = "done"]
           /\ pc' = [pc EXCEPT ![p] = "loop"]
           /\ UNCHANGED <<waiters, res>>
